@@ -10,7 +10,7 @@ from harness.C03 import real_encode, real_decode
 
 THEOREMS = ['C04_command_ids', 'C04_tlv_table', 'C04_tlv_int', 'C04_tlv_cstr', 'C04_tlv_ostr', 'C04_tlv_flag', 'C04_simple_layout',
             'C04_sm_layout', 'C04_text_decodes_under_data_coding', 'C04_smresp_decode', 'C04_bindresp_decode', 'C04_bind_decode',
-            'C04_sm_decode', 'C04_tlv_loop', 'C04_udh_decode', 'C04_nonvacuous']
+            'C04_sm_decode', 'C04_tlv_loop', 'C04_udh_decode', 'C04_udh_any_order', 'C04_nonvacuous']
 IMPORTS = ['AV.Model.Base', 'AV.Model.Codec', 'AV.Model.Split', 'AV.Model.TimeFmt', 'AV.Model.Pdu']
 SAR = (0x020C, 0x020E, 0x020F)
 
@@ -177,7 +177,28 @@ def gen_foreign_sm(rng):
         total = rng.choice([2, 3, 255])
         seq = rng.randint(1, total)
         esm |= 0x40
-        body = (smppref.udh8(ref, total, seq) if udh == 8 else smppref.udh16(ref, total, seq)) + body
+        # 3GPP TS 23.040 9.2.3.24: the header is a sequence of information elements in any order; a peer may add application port
+        # addressing (IEI 04 / 05) or others before or after the concatenation element, or send a header without concatenation
+        concat_ie = (bytes([0x00, 3, ref, total, seq]) if udh == 8 else bytes([0x08, 4, ref >> 8, ref & 0xFF, total, seq]))
+        shape = rng.choice(['concat', 'concat', 'concat', 'concat+port', 'port+concat', 'port16+concat+x', 'port_only'])
+        port8, port16, other = bytes([0x04, 2, 0x23, 0xF0]), bytes([0x05, 4, 0x0B, 0x84, 0x23, 0xF0]), bytes([0x24, 1, 0x02])
+        ies = {'concat': concat_ie, 'concat+port': concat_ie + port16, 'port+concat': port8 + concat_ie,
+               'port16+concat+x': port16 + concat_ie + other, 'port_only': port16}[shape]
+        extra = len(ies) - len(concat_ie)
+        if extra > 0:
+            cut = extra + (extra % 2 if alphabet == 'ucs2' else 0)
+            body = body[:max(2, len(body) - cut - 2)]
+            if alphabet == 'ucs2':
+                body = body[:len(body) - len(body) % 2]
+                if len(body) >= 2 and 0xD8 <= body[-2] <= 0xDB:
+                    body = body[:-2]
+            if alphabet == 'gsm0338' and body.endswith(b'\x1b'):
+                body = body[:-1]
+            text = smppref.text_decode(body, dc, default)
+        if shape == 'port_only':
+            ref = total = seq = None
+        udh = f'{udh}:{shape}'
+        body = bytes([len(ies)]) + ies + body
     in_payload = len(body) > 254 or rng.random() < 0.25
     tl = gen_tlvs(rng)
     sar_tlv = None
@@ -202,7 +223,7 @@ def gen_foreign_sm(rng):
                             registered_delivery=f['registered_delivery'], replace_if_present=f['replace_if_present'], data_coding=dc,
                             sm_default_msg_id=f['sm_default_msg_id'], short_message=b'' if in_payload else body, tlvs=b''.join(wire))
     exp = dict(f, cls='DeliverSm' if cmd_name == 'deliver_sm' else 'SubmitSm', seq=seqn, text=text, in_payload=in_payload, sched=sched, valid=valid,
-               opts=[(t, v) for t, _o, v in tl if t not in SAR], concat=(ref, total, seq) if udh else sar_tlv,
+               opts=[(t, v) for t, _o, v in tl if t not in SAR], concat=((ref, total, seq) if ref is not None else None) if udh else sar_tlv,
                alphabet=alphabet, default=default, udh=udh)
     return pdu, default, exp
 
@@ -321,6 +342,12 @@ def run(ctx):
                 if rng.random() < 0.6:
                     m.esm_class |= 0x40
                     octets = smppref.udh8(rng.randint(0, 255), 3, rng.randint(1, 3)) + octets
+                    # the neighbours of the concatenation parameters in the tag space travel with a UDH segment; the SAR parameters do not
+                    from aiosmpplib import state as _st
+                    m.optional_params = list(m.optional_params or []) + [
+                        _st.OptionalParam(t, 3) for t in rng.sample([_st.LANGUAGE_INDICATOR, _st.SOURCE_PORT, _st.DESTINATION_PORT, _st.USER_MESSAGE_REFERENCE,
+                                                                    _st.SAR_MSG_REF_NUM, _st.SAR_TOTAL_SEGMENTS, _st.SMS_SIGNAL], rng.choice([1, 2]))
+                        if t not in [p.tag for p in (m.optional_params or [])]]
                 m.set_encoded_message(octets)
                 m._pre_for_reference = octets
                 ctx.count('encode_pre_encoded_segment')
@@ -357,7 +384,7 @@ def run(ctx):
         if rng.random() < 0.65:
             pdu, default, exp = gen_foreign_sm(rng)
             d, obj = real_decode(list(pdu), default)
-            ctx.count('decode_' + exp['cls'] + ('_udh%d' % exp['udh'] if exp['udh'] else '') + ('_payload' if exp['in_payload'] else ''))
+            ctx.count('decode_' + exp['cls'] + ('_udh%s' % exp['udh'] if exp['udh'] else '') + ('_payload' if exp['in_payload'] else ''))
             bad = ('does not decode: ' + ('header ' if d[0] == 1 else '') + common.EXN_NAMES[d[1]], None) if obj is None else check_sm(exp, obj)
         else:
             pdu, exp = gen_foreign_simple(rng)
